@@ -3,6 +3,8 @@ import Liquid.Value
 import Liquid.Parse
 import Liquid.TrimWriter
 import Liquid.ExprParse
+import Liquid.Call
+import Liquid.Filters.Num
 /-!
 # Line-protocol driver (DESIGN §5.1): one case per line in, one canonical result line out.
 -/
@@ -34,6 +36,31 @@ def showStmt (kind : String) (r : Res ParseErr Stmt) : String :=
 def selectorOf (kind : String) : Bytes :=
   match kind with
   | "assign" => kwAssign | "cycle" => kwCycle | "loop" => kwLoop | "when" => kwWhen | _ => []
+/-- every modelled filter body; each `Filters/*.lean` file contributes its `impls` list here -/
+def allFilterImpls : List (Bytes × FilterImpl) := Num.impls
+
+def showValRes : Res Cause GoVal → String
+  | .ok v => "ok " ++ v.enc
+  | .err c => "err " ++ c.kind
+  | .panic _ => "panic"
+  | .unmodelled w => "unmodelled " ++ w
+
+def showBytesRes : Res Cause Bytes → String
+  | .ok b => "ok " ++ hexField b
+  | .err c => "err " ++ c.kind
+  | .panic _ => "panic"
+  | .unmodelled w => "unmodelled " ++ w
+
+def parseParamTy : String → Option ParamTy
+  | "any" => some .any | "bool" => some .bool | "int" => some .int | "f64" => some .f64
+  | "str" => some .str | "anys" => some .anys | "time" => some .time
+  | _ => none
+
+/-- `filter <namehex> <recv> <arg>*` -/
+def runFilterCase (name : String) (vals : List String) : String :=
+  match vals.mapM GoVal.parse with
+  | some (recv :: args) => showValRes (evalFilter (lookupImpl allFilterImpls) (hexDecode name) recv args)
+  | _ => "unmodelled parse"
 
 def runCase (line : String) : String :=
   match line.splitOn " " with
@@ -48,4 +75,17 @@ def runCase (line : String) : String :=
     match GoVal.parse v with
     | some x => x.enc
     | none => "unmodelled parse"
+  | "filter" :: name :: vals => runFilterCase name vals
+  | ["sprint", v] =>
+    match GoVal.parse v with
+    | some x => showBytesRes (sprint x)
+    | none => "unmodelled parse"
+  | ["wobj", v] =>
+    match GoVal.parse v with
+    | some x => showBytesRes (writeObject (viaValue x))
+    | none => "unmodelled parse"
+  | ["conv", t, v] =>
+    match parseParamTy t, GoVal.parse v with
+    | some ty, some x => showValRes (convert x ty)
+    | _, _ => "unmodelled parse"
   | _ => "bad-op"
